@@ -224,7 +224,8 @@ class MPS:
         """
         length = self.length
 
-        # enlarge tensors
+        # enlarge tensors (collected first: a request that has to be rejected must leave the state as it was)
+        padded = []
         for i, tensor in enumerate(self.tensors):
             phys, chi_l, chi_r = tensor.shape
 
@@ -249,6 +250,8 @@ class MPS:
             # allocate new tensor and copy original data
             new_tensor = np.zeros((phys, left_target, right_target), dtype=tensor.dtype)
             new_tensor[:, :chi_l, :chi_r] = tensor
+            padded.append(new_tensor)
+        for i, new_tensor in enumerate(padded):
             self.tensors[i] = new_tensor
         # renormalise the state
         self.normalize()
